@@ -4,7 +4,9 @@ text, categorical and numeric data x formulas x output types x materializers.
 
 Oracle (statement + docsite guides: default coding is Treatment with the first level as reference,
 terms ordered by degree, `a:b` is the row-wise product):
-  text        -> indicator columns, one per distinct value, in *sorted* order of the values;
+  text        -> indicator columns, one per distinct value, in *sorted* order of the values; for Python-object
+                 columns mixing value types (str + int, str + float) no order is defined, so only "one indicator
+                 column per distinct value, every cell a number" is judged;
   categorical -> indicator columns in the *declared* category order; a declared category that never
                  occurs keeps its position as an all-zero column; the same holds when the column is
                  wrapped in C(...) with any built-in coding (treatment, sum);
@@ -53,6 +55,14 @@ _add("string[pyarrow] via ArrowDtype", "text", f"pd.Series({TEXT!r}, dtype=pd.Ar
      f"pa.array({TEXT!r}, type=pa.string())", TEXT, sorted(set(TEXT)))
 _add("large_string[pyarrow] via ArrowDtype", "text", f"pd.Series({TEXT!r}, dtype=pd.ArrowDtype(pa.large_string()))",
      f"pa.array({TEXT!r}, type=pa.large_string())", TEXT, sorted(set(TEXT)))
+# Python-object columns whose values are not all str (zip codes mixing str and int, ...): still text data that has
+# to be dummy-coded; a sorted order is not defined across types, so the level ORDER is not judged for these
+MIXED_SI = ["b", 3, "a", "b", "a", 3]
+MIXED_SF = ["b", 2.5, "a", "b", "a", 2.5]
+DIGITS = ["10", "2", "33", "10", "33", "2"]
+_add("object (str + int values)", "mixed", f"pd.Series({MIXED_SI!r}, dtype=object)", None, MIXED_SI, ["b", 3, "a"])
+_add("object (str + float values)", "mixed", f"pd.Series({MIXED_SF!r}, dtype=object)", None, MIXED_SF, ["b", 2.5, "a"])
+_add("object (digit strings)", "text", f"pd.Series({DIGITS!r}, dtype=object)", None, DIGITS, sorted(set(DIGITS)))
 for ordered in (False, True):
     codes = [CAT_DECLARED.index(v) for v in TEXT]
     _add(f"category(str, ordered={ordered})", "cat",
@@ -177,7 +187,7 @@ def expected(dt, formula, variant="none"):
         x = np.array(vals, dtype=float)
         return [{"0 + v": [x], "v": [one, x], "0 + v:w": [x * w], "v + w + v:w": [one, x, w, x * w],
                  "0 + v + w": [x, w], "0 + w + v": [w, x], "0 + v + n + w": [x, nn, w]}[formula]]
-    if group == "cat":
+    if group in ("cat", "mixed"):
         level_sets = [list(levels)]
     else:
         level_sets = [sorted({x for x in v if x is not None})]
@@ -276,7 +286,7 @@ def _run_bounded(ctx):
             for mat, (_, outputs) in MATERIALIZERS.items():
                 if mat == "narwhals(pyarrow)" and pa_src is None:
                     continue
-                for formula in FORMULAS + (C_FORMULAS if group in ("text", "cat") else ()):
+                for formula in FORMULAS + (C_FORMULAS if group in ("text", "cat", "mixed") else ()):
                     if "v" not in formula and name not in ("object", "int64"):
                         continue  # formulas over the helper columns only: the tested dtype is irrelevant
                     for variant in (VARIANTS if group in ("text", "cat") else ("none",)):
@@ -326,7 +336,7 @@ def _run_bounded(ctx):
         )
 
 
-_GROUP_CLAUSE = {"text": "C08.text.sorted-indicators", "cat": "C08.categorical.declared-order-indicators",
+_GROUP_CLAUSE = {"mixed": "C08.text.indicator-columns", "text": "C08.text.sorted-indicators", "cat": "C08.categorical.declared-order-indicators",
                  "num": "C08.numeric.pass-through", "bool": "C08.cells.numeric"}
 
 _KIND_SRC = (
@@ -344,7 +354,7 @@ def _kind(rep, dt, mat):
     with warnings.catch_warnings():
         warnings.simplefilter("ignore")
         exec(src, env)
-    want = group in ("text", "cat")
+    want = group in ("text", "cat", "mixed")
     if env["got"] != want:
         rep.fail("C08.kind.is_categorical", f"{name} | {mat}",
                  {"dtype": name, "materializer": mat, "code": src + f"assert got == {want}, ('_is_categorical', got)\n"},
@@ -366,7 +376,13 @@ if EXPECTED_ANY is not None:
     def matches(e):
         exp = np.array(e, dtype=float).T.reshape(-1, len(e))
         return c.shape == exp.shape and np.allclose(c.astype(float), exp, rtol=RTOL, atol=0)
-    assert any(matches(e) for e in EXPECTED_ANY), (list(res.model_spec.column_names), c.astype(float).tolist(), "expected one of", EXPECTED_ANY)
+    if ORDER_FREE:
+        exp = np.array(EXPECTED_ANY[0], dtype=float).T.reshape(-1, len(EXPECTED_ANY[0]))
+        assert c.shape == exp.shape, ("shape", c.shape, "expected", exp.shape, list(res.model_spec.column_names))
+        if FULL_RANK:
+            assert sorted(map(tuple, np.round(c.astype(float), 9).T.tolist())) == sorted(map(tuple, np.round(exp, 9).T.tolist())), (list(res.model_spec.column_names), c.tolist())
+    else:
+        assert any(matches(e) for e in EXPECTED_ANY), (list(res.model_spec.column_names), c.astype(float).tolist(), "expected one of", EXPECTED_ANY)
 '''
 
 
@@ -383,7 +399,7 @@ def _one(rep, dt, mat, formula, out, variant="none"):
         exps = expected(dt, formula, variant)
         rtol = 1e-6 if ":" in formula else 0.0  # only products (float32 inputs) get a tolerance; pass-through is exact
         code = (src + f"res = model_matrix({formula!r}, data, output={out!r})\n"
-                + f"EXPECTED_ANY = {None if exps is None else [[c.tolist() for c in e] for e in exps]!r}\nRTOL = {rtol}\n" + _CHECK_SRC)
+                + f"EXPECTED_ANY = {None if exps is None else [[c.tolist() for c in e] for e in exps]!r}\nRTOL = {rtol}\nORDER_FREE = {group == 'mixed'}\nFULL_RANK = {formula.startswith('0 +')}\n" + _CHECK_SRC)
         cls = f"{name} | {mat}" + (" | via C()" if "C(" in formula else "") + ("" if variant == "none" else " | rows dropped for nulls")
         wit = {"dtype": name, "materializer": mat, "formula": formula, "nulls": variant, "output": out, "code": code}
         try:
@@ -398,9 +414,19 @@ def _one(rep, dt, mat, formula, out, variant="none"):
             return
         if exps is None:
             return
-        clause = {"text": "C08.text.sorted-indicators", "cat": "C08.categorical.declared-order-indicators",
-                  "num": "C08.numeric.pass-through"}[group]
+        clause = _GROUP_CLAUSE[group]
         Es = [np.array(e, dtype=float).T.reshape(-1, len(e)) for e in exps]
+        if group == "mixed":
+            # no order is defined across value types: full-rank formulas are compared as a SET of columns,
+            # reduced-rank ones (whose reference level depends on the order) only by shape and numeric cells
+            if cells.shape != Es[0].shape:
+                rep.fail(clause, cls + " | shape", wit, f"shape {cells.shape} expected {Es[0].shape}; columns {list(res.model_spec.column_names)}")
+            elif formula.startswith("0 +"):
+                got_cols = sorted(map(tuple, np.round(cells.astype(float), 9).T.tolist()))
+                exp_cols = sorted(map(tuple, np.round(Es[0], 9).T.tolist()))
+                if got_cols != exp_cols:
+                    rep.fail(clause, cls, wit, f"columns {list(res.model_spec.column_names)} are not the indicator columns of the values: {cells.astype(float).tolist()}")
+            return
         shaped = [E for E in Es if E.shape == cells.shape]
         if not shaped:
             rep.fail(clause, cls + " | shape", wit,
